@@ -419,11 +419,14 @@ func c16wGen(r *rand.Rand, emit func(...string)) {
 	capQ := n + 2
 	if r.Intn(3) == 0 {
 		capQ = 2 + r.Intn(3) // small buffer: Enqueue after quit hits a full queue
+	} else if r.Intn(4) == 0 {
+		capQ = r.Intn(2) // unbuffered (rendezvous with a parked worker) or one slot: Enqueue waits for the workers
+		vu.Stat("w_tiny_buffer")
 	}
 	toks := []string{"W", strconv.Itoa(nw), strconv.Itoa(capQ)}
 	id := 0
 	before := r.Intn(n)
-	if before > capQ {
+	if before > capQ && capQ >= 2 {
 		before = capQ
 	}
 	for k := 0; k < before; k++ {
